@@ -205,6 +205,8 @@ def warp_union(ctx: Ctx) -> None:
         ctx.expect("R-TABLE", cw, "both lists start empty", fresh, "", f"{S} / {E} are not fresh BeatValues() before the loop", node=cw.node)
         wl = {(ast.unparse(e.target), e.line) for s_ in csums for e in s_.effects if e.kind == "for" and ast.unparse(e.value) == f"{cw.param_names()[0]}.timing_data.warps"}
         allloops = {e.line for s_ in csums for e in s_.effects if e.kind == "for"}
+        if len(allloops) == 2 and _segment_pairs(ctx, cw, csums, S, E):
+            return  # the other representation: segments collected as (start, end) pairs first, the two lists filled from them afterwards
         ctx.expect("R-TABLE", cw, "every warp of the timing data is considered, in order", len(wl) == 1 and len(allloops) == 1, str(sorted(wl)), f"loops over the warps: {sorted(wl)} (all loops: {sorted(allloops)})", node=cw.node)
         if len(wl) == 1 and len(allloops) == 1:
             w, line = next(iter(wl))
